@@ -101,3 +101,8 @@ def run(tier):
     v.assumptions = ["the debug build's poisoning makes a stale read visible as different bytes; a stale read of bytes that happen to be unchanged is caught only through the recycled-slot cases the profiles construct (overwrite, then allocate a same-size string)",
                      "deviations already present without the frame arena belong to C01, crashes there to C06"]
     return v.finish()
+
+
+def replay(path):
+    import replaytool
+    return replaytool.replay("C02", path)
